@@ -11,47 +11,6 @@ import (
 // counts and payload bytes are arbitrary (size fields case split over every value up to the stream length and
 // symbolic above it, so that positions stay concrete on each path).
 
-type zzBuf struct{ b []byte }
-
-func (z *zzBuf) put32(off int, v uint32) {
-	z.b[off], z.b[off+1], z.b[off+2], z.b[off+3] = byte(v>>24), byte(v>>16), byte(v>>8), byte(v)
-}
-func (z *zzBuf) str(off int, s string) {
-	for i := 0; i < len(s); i++ {
-		z.b[off+i] = s[i]
-	}
-}
-func (z *zzBuf) box(off int, size uint32, typ string) {
-	z.put32(off, size)
-	z.str(off+4, typ)
-	if size == 1 && off+16 <= len(z.b) {
-		// 64-bit size form: the large size from the classes {0, 15, 16, 17, 40, 2^31, 2^63, 2^64-1}
-		l := zzU64("large")
-		zzAssume(l == 0 || l == 15 || l == 16 || l == 17 || l == 40 || l == 1<<31 || l == 1<<63 || l == 1<<64-1)
-		l = zzConc(l, 8)
-		z.put32(off+8, uint32(l>>32))
-		z.put32(off+12, uint32(l))
-	}
-}
-func (z *zzBuf) sym(off int, name string, n int) []byte {
-	v := zzBytes(name, n)
-	for i := range v {
-		z.b[off+i] = v[i]
-	}
-	return v
-}
-
-// zzSize: a 32-bit size field from the classes {0, 1 (64-bit form), 7, 8, 9, 12, 16, 24, exact-1, exact, exact+1,
-// n+8 (beyond the stream), 0x7fffffff, 0x80000000, 0xffffffff}; case split so that positions stay concrete.
-func zzSize(name string, n int, exact int) uint32 {
-	s := zzU32(name)
-	zzAssume(s == 0 || s == 1 || s == 7 || s == 8 || s == 9 || s == 12 || s == 16 || s == 24 || int(s) == exact-1 || int(s) == exact || int(s) == exact+1 ||
-		int(s) == n+8 || s == 0x7fffffff || s == 0x80000000 || s == 0xffffffff)
-	return uint32(zzConc(uint64(s), 16))
-}
-
-const zzFtyp = "\x00\x00\x00\x18ftypcrx \x00\x00\x00\x01crx isom"
-
 func zzExifCb(mode int) func(r io.Reader, h meta.ExifHeader) error {
 	switch mode {
 	case 0:
@@ -183,11 +142,6 @@ func zzC01_bmff_iloc() {
 	zzReached("end")
 }
 
-var zzUUIDs = []string{
-	"\x85\xc0\xb6\x87\x82\x0f\x11\xe0\x81\x11\xf4\xce\x46\x2b\x6a\x48", // cr3 meta
-	"\xbe\x7a\xcf\xcb\x97\xa9\x42\xe8\x9c\x71\x99\x94\x91\xe3\xaf\xac", // xpacket
-	"\xea\xf4\x2b\x5e\x1c\x98\x4b\x88\xb9\xfb\xb7\xdc\x40\x6e\x4d\x16", // preview
-}
 
 // R10: moov -> uuid(cr3 meta) -> one child of every handled type (CNCV, CTBO, CMT1..4, other) with arbitrary size, 40 payload bytes
 func zzC01_bmff_crx_N() int { return 21 }
